@@ -175,7 +175,7 @@ func templateScenario(r *sim.Rand, g *world.Gen) []sim.Op {
 			pic = append([]int{picFmt, 5, 5, 7000}, pic[4:]...)
 		}
 		data := &world.TData{Vars: map[string]any{"name": fmt.Sprintf("N%d", d), "city": "C", "title": "T"}, Images: map[string][]int{"pic": pic}}
-		ops = append(ops, sim.Op{K: "tpl.render", D: d, I: []int{0, 1, 0, shared}, S: []sim.Str{sim.Str(data.JSON())}})
+		ops = append(ops, sim.Op{K: "tpl.render", D: d, I: []int{0, 1, 0, shared, 1}, S: []sim.Str{sim.Str(data.JSON())}})
 		if d < n && lateBaseEdits {
 			// the template document goes on being edited after it was loaded (no reload): whatever a later render takes from
 			// it - body, relationships, parts - must still fit together
